@@ -26,7 +26,7 @@ def run(res):
                      data_word_cases=o["data_word_evaluations"], data_word_reported=o["data_word_reported"],
                      distinct_structured_words=structured)
     res.exhaustive = False
-    res.rule = ("per word type: 256 identifier bytes x {zero body, 72 single bits, 2556 bit pairs, all ones} + all 59640 bit triples under the own identifier (complete) + random bodies; "
+    res.rule = ("per word type: 256 identifier bytes x {zero body, 72 single bits, 2556 bit pairs, all ones} + all 59640 bit triples and all 2628 contiguous runs of ones under the own identifier (complete) + random bodies; "
                 "data words: 256 identifiers x {empty, full, 28 single-lane, 28 all-but-one, 64 random} active-lane masks; "
                 "non-trivial = distinct structured word (capped at 5000 in distinct_nontrivial, exact number in distinct_structured_words)")
     res.samples = ["IHW id 0xE0 + single bit 28 -> must fail", "TDH id 0xE8 body 0 -> must fail (no trigger)", "TDT id 0xF0 + bit 66 -> must fail",
